@@ -151,6 +151,7 @@ func vmRun(fn string, canary int) HarnessRun {
 const v2Pkg = ledgerMod + "/internal/api/v2"
 const compilerPkg = ledgerMod + "/internal/machine/script/compiler"
 const batchPkg = ledgerMod + "/internal/engine/utils/batching"
+const queryPkg = libsMod + "/query"
 const v1Pkg = ledgerMod + "/internal/api/v1"
 
 const apiPkg = ledgerMod + "/internal/api"
@@ -331,7 +332,7 @@ var specs = map[string]*CheckSpec{
 		MaxPaths:    func(tier string) int { return 2000000 },
 	},
 	"C20": {
-		ID: "C20", Patterns: []string{lsPkg},
+		ID: "C20", Patterns: []string{lsPkg, queryPkg},
 		Runs: []HarnessRun{{Pkg: lsPkg, Dir: "internal/storage/ledgerstore", Mod: "ledger", Fn: "ZZ_C20",
 			Shapes: func(s *Session, tier string) []int {
 				all := countShapes(lsPkg, "ZZ_C20N")(s, tier)
@@ -347,13 +348,14 @@ var specs = map[string]*CheckSpec{
 				}
 				return out
 			},
-			Cfg: cmdCfg, Desc: harnessDesc(lsPkg, "ZZ_C20Desc", "filter:"), CanaryShapes: []int{1, 46}}},
+			Cfg: cmdCfg, Desc: harnessDesc(lsPkg, "ZZ_C20Desc", "filter:"), CanaryShapes: []int{1, 46}},
+			{Pkg: queryPkg, Dir: "query", Mod: "libs", Fn: "ZZ_C20Op", Shapes: rangeShapes(4), Cfg: cmdCfg, Desc: harnessDesc(queryPkg, "ZZ_C20OpDesc", ""), CanaryShapes: []int{0}}},
 		Bounds: func(tier string) map[string]any {
 			n := 3
 			if tier == "thorough" {
 				n = 4
 			}
-			return map[string]any{"client_text": fmt.Sprintf("every byte string of length 0..%d (symbolic bytes)", n), "filters": "16 (listing, key, operator) cases: address/account/source/destination/reference/timestamp/metadata[k] value and key/balance[asset] value and asset/balance/date over the account, transaction, aggregated-balance and log listings", "outside": "bun's rendering of bound arguments; the HTTP layer (passes strings through unchanged)"}
+			return map[string]any{"client_text": fmt.Sprintf("every byte string of length 0..%d (symbolic bytes)", n), "filters": "16 (listing, key, operator) cases: address/account/source/destination/reference/timestamp/metadata[k] value and key/balance[asset] value and asset/balance/date over the account, transaction, aggregated-balance and log listings", "operator_keys": "a set operator key of the filter body = $and / $or followed by 0..3 arbitrary bytes: refused, or the clause of the plain operator", "outside": "bun's rendering of bound arguments; the HTTP layer (passes strings through unchanged)"}
 		},
 		Assumptions: []string{"bun renders `?` arguments as escaped literals (library contract)", "PostgreSQL with standard_conforming_strings (backslash is not an escape in '...' literals)", "the oracle is a scanner of SQL token kinds (and of JSON/jsonpath token kinds inside literals) written in the harness"},
 		Encoded:     []string{"ledgerstore.filterAccountAddress", "ledgerstore.filterAccountAddressOnTransactions", "ledgerstore.(*Store).accountQueryContext", "ledgerstore.(*Store).transactionQueryContext", "ledgerstore.(*Store).GetAggregatedBalances (matcher closure, reached through a probing query.Builder)", "ledgerstore.(*Store).logsQueryBuilder", "query.keyValue.Build", "ledgerstore.validateAddressFilter"},
